@@ -73,10 +73,14 @@ def quick_post_filter(pid):
     """quick tier: a function is proved for architecture A if it is defined in A's own header, or has code of A's own header inlined
     into it (architecture-specific detail helpers), or A is one of the base architectures for the architecture-independent layers"""
     def f(fn, job):
+        if fn.aid is None:
+            return True
         base = os.path.basename(fn.file)
         own = ARCH_FILE.get(fn.aid)
         if base in ARCH_FILES:
             return base == own
+        if base in ("xsimd_api.hpp", "xsimd_batch.hpp"):
+            return fn.aid == "sse2" or (fn.aid == "avx512bw" and fn.tid in ("i8", "f32"))   # forwarding layers: one vector-mask and one k-mask shape
         if fn.aid in QUICK_BASE:
             return True
         return any(os.path.basename(i.get("file", "")) == own for i in job.get("inlined", []))
